@@ -10,7 +10,7 @@ HARNESS = ("h_aggregator", ["h_aggregator.cpp"], {})
 # ------------------------------------------------------------------------------------------------
 
 def parse_script(txt):
-    """'y,a,t3*y,a' -> (pre, cyc) lists of acts ('y' | 'a' | 't3')"""
+    """'y,a,t3*y,ar' -> (pre, cyc) lists of acts ('y' | 'a' | 'ar' | 't3'); 'ar' = await, then fetch the argument again"""
     pre, _, cyc = txt.partition("*")
     f = lambda t: [x for x in t.split(",") if x and x != "-"]
     return f(pre), f(cyc)
@@ -55,7 +55,7 @@ class Sim:
             self.res[k] = "done"
         else:
             self.pc[k] += 1
-            if a == "a":
+            if a in ("a", "ar"):
                 self.st[k] = "inflight"
                 return False
             self.res[k] = "val" if a == "y" else "exc"
@@ -173,7 +173,7 @@ def first_illegal(lines, upto):
                 x = sim.resolve(k)
                 if pending and x is not None and x != "pending":
                     pending = False
-            elif o == "destroy":
+            elif o in ("destroy", "cdestroy"):
                 if pending:
                     return i
                 for k in map(int, w[1:]):
@@ -192,11 +192,12 @@ def first_illegal(lines, upto):
     return None
 
 
-def gen_script(rng, kind):
-    """kind: sync-finite, async-finite, sync-inf, async-inf ; finite ones may throw at the end"""
+def gen_script(rng, kind, p_ar=0.0):
+    """kind: sync-finite, async-finite, sync-inf, async-inf ; finite ones may throw at the end.
+    p_ar: share of the awaits after which the source fetches its argument again (`ar`)"""
     pa = 0.0 if kind.startswith("sync") else rng.choice([0.25, 0.5])
     def acts(n, need_y=False):
-        out = ["a" if rng.random() < pa else "y" for _ in range(n)]
+        out = [("ar" if rng.random() < p_ar else "a") if rng.random() < pa else "y" for _ in range(n)]
         if need_y and "y" not in out:
             out[rng.randrange(len(out))] = "y"
         return out
@@ -212,7 +213,9 @@ def gen_script(rng, kind):
 
 def gen_case(rng, max_ops):
     n = rng.choice([0, 1, 1, 2, 2, 2, 3, 3, 3, 4, 4, 5])
-    mode = rng.choice(["v", "v", "a"])
+    # v: no argument; a: int argument; r: argument object with tracked life time (copy/move/destroy visible)
+    mode = rng.choice(["v", "v", "v", "a", "r", "r"])
+    p_ar = 0.0 if mode == "v" else rng.choice([0.0, 0.5, 1.0])
     flavour = rng.random()
     scripts = []
     for _ in range(n):
@@ -222,7 +225,7 @@ def gen_case(rng, max_ops):
             kind = rng.choice(["async-finite", "async-inf"])
         else:
             kind = rng.choice(["sync-finite", "async-finite", "async-finite", "sync-inf", "async-inf"])
-        scripts.append(gen_script(rng, kind))
+        scripts.append(gen_script(rng, kind, p_ar))
     sim = Sim(scripts)
     lines = ["case 0 agg %s %d %s" % (mode, n, " ".join(script_text(*s) for s in scripts))]
     lines[0] = lines[0].rstrip()
@@ -264,7 +267,8 @@ def gen_case(rng, max_ops):
                 k = rng.choice(sim.inflight())
                 hs.append(k)
                 sim.resolve(k)
-            lines.append(("destroy " + " ".join(map(str, hs))).strip())
+            # ... dropped by plain code or by a running coroutine (any consumer that uses co_await)
+            lines.append((rng.choice(["destroy", "cdestroy"]) + " " + " ".join(map(str, hs))).strip())
             sim.ag = "destroyed"
             break
         if fl and r < p_destroy + 0.15:
@@ -357,7 +361,7 @@ class AggSuite(Suite):
     nontrivial_rule = "at least 2 sources and at least 3 values consumed, or an asynchronous completion, exception or early destruction"
 
     def gen_cases(self, rng, tier):
-        n = 20000 if tier == "quick" else 500000
+        n = 8000 if tier == "quick" else 500000
         cases = []
         for i in range(n):
             r = rng.random()
@@ -369,15 +373,15 @@ class AggSuite(Suite):
         hdr = case["lines"][0].split()
         n = int(hdr[4])
         vals = sum(1 for l in out for w in l.split() if w.startswith("v:") or w.startswith("got=v:"))
-        special = any(l.split()[0] in ("res", "tres", "bnext", "destroy", "batch") for l in case["lines"][1:]) or \
+        special = any(l.split()[0] in ("res", "tres", "bnext", "destroy", "cdestroy", "batch") for l in case["lines"][1:]) or \
             any("exc:" in l for l in out)
         return (n >= 2 and vals >= 3) or special
 
     def stats(self, cases, outs):
-        ops, nsrc, kinds = {}, {}, {"finite": 0, "infinite": 0, "async": 0, "throwing": 0}
-        modes = {"v": 0, "a": 0}
+        ops, nsrc, kinds = {}, {}, {"finite": 0, "infinite": 0, "async": 0, "throwing": 0, "fetching_argument_again_after_await": 0}
+        modes = {"v": 0, "a": 0, "r": 0}
         results = {"v": 0, "end": 0, "exc": 0, "pending": 0}
-        early = drained = 0
+        early = drained = codrained = late = late_after_other_access = 0
         instyles = {}
         for c in cases:
             hdr = c["lines"][0].split()
@@ -386,7 +390,8 @@ class AggSuite(Suite):
             for t in hdr[5:]:
                 pre, cyc = parse_script(t)
                 kinds["infinite" if cyc else "finite"] += 1
-                kinds["async"] += 1 if "a" in pre + cyc else 0
+                kinds["async"] += 1 if "a" in pre + cyc or "ar" in pre + cyc else 0
+                kinds["fetching_argument_again_after_await"] += 1 if hdr[3] != "v" and "ar" in pre + cyc else 0
                 kinds["throwing"] += 1 if any(a.startswith("t") for a in pre) else 0
             for l in c["lines"][1:-1]:
                 k = l.split()[0]
@@ -394,10 +399,24 @@ class AggSuite(Suite):
                 if k == "batch":
                     for a in l.split()[1:]:
                         instyles[a[0]] = instyles.get(a[0], 0) + 1
-                if k == "destroy":
+                if k in ("destroy", "cdestroy"):
                     early += 1
                     drained += 1 if len(l.split()) > 1 else 0
-            for l in outs.get(str(c["id"]), []):
+                    codrained += 1 if len(l.split()) > 1 and k == "cdestroy" else 0
+            charged_at = {}       # source -> index of the access line that charged it last
+            for li, l in enumerate(outs.get(str(c["id"]), [])):
+                if " ; " in l:
+                    evs = l.partition(" ; ")[2].split()
+                    for w in evs:
+                        if re.match(r"a\d+=", w):
+                            charged_at[w[1:w.index("=")]] = li
+                    for w in evs:
+                        if re.match(r"r\d+=", w):
+                            late += 1
+                            k = w[1:w.index("=")]
+                            # another argument has been handed to the aggregate since this source was charged
+                            if any(v > charged_at.get(k, -1) for kk, v in charged_at.items() if kk != k):
+                                late_after_other_access += 1
                 for w in l.split():
                     w = w[4:] if w.startswith("got=") else w
                     if w.startswith("v:"):
@@ -408,7 +427,10 @@ class AggSuite(Suite):
                         results["exc"] += 1
         return {"ops": ops, "sources_per_case": nsrc, "source_kinds": kinds, "modes": modes, "results": results,
                 "accesses_inside_one_consumer_coroutine(n next,i iterator,c co_await,f future+co_await,w future blocking)": instyles,
-                "early_destructions": early, "destructions_waiting_for_inflight_sources": drained}
+                "early_destructions": early, "destructions_waiting_for_inflight_sources": drained,
+                "destructions_by_a_running_coroutine_waiting_for_inflight_sources": codrained,
+                "argument_fetched_again_after_await": late,
+                "argument_fetched_again_after_a_later_argument_went_to_another_source": late_after_other_access}
 
     def oracle(self, case, out):
         """the statement of C14 evaluated on the implementation's trace.  The j-th value of source k is
@@ -426,9 +448,16 @@ class AggSuite(Suite):
         ended_result = None           # 'end' or 'exc:c' once the consumer saw the end
         pend = False                  # an access is outstanding
         pos = [(0, False)] * n
+        has_arg = mode in ("a", "r")
+        last_arg = {}                 # source -> the argument it received last
+
+        prefix = [[0] for _ in range(n)]      # prefix[k][p] = number of yields among the first p acts of source k
 
         def produced(k, upto):
-            return sum(1 for p in range(upto) if act_at(scripts[k], p) == "y")
+            pk = prefix[k]
+            while len(pk) <= upto:
+                pk.append(pk[-1] + (1 if act_at(scripts[k], len(pk) - 1) == "y" else 0))
+            return pk[upto]
 
         def thrown_codes():
             # sources whose body ended with a throw
@@ -498,13 +527,37 @@ class AggSuite(Suite):
             p = parse_p(head)
             if p is not None and len(p) == n:
                 pos = p
-            args_seen = sorted((int(m.group(1)), int(m.group(2))) for m in
-                               (re.match(r"a(\d+)=(\d+)$", e) for e in evs) if m)
+            args_seen = []
+            for m in (re.match(r"a(\d+)=(\w+)$", e) for e in evs):
+                if not m:
+                    continue
+                if m.group(2).isdigit():
+                    args_seen.append((int(m.group(1)), int(m.group(2))))
+                else:
+                    # `dead`: the object behind the reference has been destroyed, `moved`: it has been moved from
+                    args_seen.append((int(m.group(1)), -1))
+                    msgs.append("arg-routing: `%s`: source %s was handed a %s argument object instead of the argument of the access"
+                                % (op, m.group(1), {"dead": "destroyed", "moved": "moved-from"}.get(m.group(2), m.group(2))))
+            args_seen.sort()
+            before = dict(last_arg)
+            for k, a in args_seen:
+                last_arg[k] = a
+            # a source may look at its argument for as long as it works on the step (the generator hands out a reference):
+            # whenever it does, it must find the argument that was routed to it
+            for m in (re.match(r"r(\d+)=(\w+)$", e) for e in evs):
+                if not m:
+                    continue
+                k = int(m.group(1))
+                ok_vals = {str(x) for x in (before.get(k), last_arg.get(k)) if x is not None and x >= 0}
+                if m.group(2) not in ok_vals:
+                    msgs.append("arg-routing: `%s`: source %d fetched its argument again after an await and found %s, the argument routed to it was %s"
+                                % (op, k, {"dead": "a destroyed object", "moved": "a moved-from object"}.get(m.group(2), m.group(2)),
+                                   last_arg.get(k)))
             expect_args = []
             if w[0] == "batch" and head[0] == "batch":
                 results = [x for x in head[1:] if not x.startswith("p=")]
                 for acc, r in zip(w[1:], results):
-                    if mode == "a" and r != "nomore" and ended_result is None:
+                    if has_arg and r != "nomore" and ended_result is None:
                         a = int(acc[2:])
                         if first_access:
                             expect_args += [(k, a) for k in range(n)]
@@ -514,7 +567,7 @@ class AggSuite(Suite):
                     on_result(r, op)
             if w[0] in ACCESS and head[0] == w[0] and len(head) >= 2:
                 r = head[1]
-                if mode == "a" and r != "nomore" and ended_result is None:
+                if has_arg and r != "nomore" and ended_result is None:
                     a = int(w[1])
                     if first_access:
                         expect_args = [(k, a) for k in range(n)]
@@ -527,7 +580,7 @@ class AggSuite(Suite):
                     if not pend:
                         msgs.append("duplicate: an access completed twice (%s)" % e)
                     on_result(e[4:], op)
-            if mode == "a" and args_seen != sorted(expect_args):
+            if has_arg and args_seen != sorted(expect_args):
                 msgs.append("arg-routing: `%s` delivered arguments %s, expected %s (argument goes to the source returned last)"
                             % (op, args_seen, sorted(expect_args)))
             # at most one value of every source can be waiting in the aggregator
@@ -536,9 +589,9 @@ class AggSuite(Suite):
                 if d > 1 and ended_result is None:
                     msgs.append("lost: source %d has yielded %d values, only %d delivered" % (k, produced(k, pos[k][0]), consumed[k]))
             # ends when all sources have ended: no access may stay pending then
-            if pend and n == sum(1 for x in pos if x[1]) and w[0] not in ("end", "destroy"):
+            if pend and n == sum(1 for x in pos if x[1]) and w[0] not in ("end", "destroy", "cdestroy"):
                 msgs.append("end: access still pending although all %d sources have ended" % n)
-            if w[0] in ("destroy", "end") and head[0] == w[0]:
+            if w[0] in ("destroy", "cdestroy", "end") and head[0] == w[0]:
                 if "unsettled" in evs:
                     if n == sum(1 for x in pos if x[1]):
                         msgs.append("end: access never completed although all sources have ended")
@@ -571,13 +624,14 @@ class StressSuite(Suite):
         cases = []
         for i in range(n):
             ns = rng.choice([1, 2, 2, 3, 3, 4, 5])
-            mode = rng.choice(["v", "v", "a"])
+            mode = rng.choice(["v", "v", "v", "a", "r", "r"])
+            p_ar = 0.0 if mode == "v" else rng.choice([0.0, 0.5, 1.0])
             scripts = []
             for k in range(ns):
                 kind = rng.choice(["async-inf", "async-inf", "async-finite", "async-finite", "sync-finite", "sync-inf"])
                 if k == 0 and kind.startswith("sync"):
                     kind = "async-" + kind.split("-")[1]
-                pre, cyc = gen_script(rng, kind)
+                pre, cyc = gen_script(rng, kind, p_ar)
                 if not cyc and rng.random() < 0.5:      # longer finite sources
                     body = pre[:-1] if pre and pre[-1].startswith("t") else pre
                     tail = pre[len(body):]
@@ -602,7 +656,11 @@ class StressSuite(Suite):
 
     def stats(self, cases, outs):
         res, styles, nsrc, values = {}, {}, {}, 0
+        modes, late = {}, 0
         for c in cases:
+            hdr = c["lines"][0].split()
+            modes[hdr[3]] = modes.get(hdr[3], 0) + 1
+            late += 1 if hdr[3] != "v" and any("ar" in parse_script(t)[0] + parse_script(t)[1] for t in hdr[5:]) else 0
             nsrc[c["lines"][0].split()[4]] = nsrc.get(c["lines"][0].split()[4], 0) + 1
             w = c["lines"][1].split()
             styles[w[2]] = styles.get(w[2], 0) + 1
@@ -612,7 +670,8 @@ class StressSuite(Suite):
                 res[f.get("result", "?")] = res.get(f.get("result", "?"), 0) + 1
                 values += int(f.get("got", 0)) if f.get("got", "0").isdigit() else 0
         return {"sources_per_case": nsrc, "access_style(0 next,1 iterator,2 future,3 coroutine co_await,4 coroutine blocking next)": styles, "results": res,
-                "values_consumed": values,
+                "values_consumed": values, "modes(v no argument,a int,r tracked object)": modes,
+                "cases_with_sources_fetching_their_argument_again_after_await": late,
                 "destroyed_with_resolver_threads_running": sum(1 for c in cases if c["lines"][2].startswith("sdestroy"))}
 
     def oracle(self, case, out):
@@ -638,6 +697,9 @@ class StressSuite(Suite):
             msgs.append("union: %d values do not come from any source" % num("unknown"))
         if num("lost"):
             msgs.append("lost: %d sources have yielded values that were never delivered" % num("lost"))
+        if num("argbad"):
+            msgs.append("arg-routing: %d times a source fetched its argument again after an await and did not find the argument "
+                        "it had been given (every access of the stress run carries another argument)" % num("argbad"))
         infinite = any(cyc for _, cyc in scripts)
         total = sum(sum(1 for a in pre if a == "y") for pre, _ in scripts)
         throws = any(pre and pre[-1].startswith("t") for pre, _ in scripts)
@@ -675,19 +737,25 @@ class C14(Spec):
     technique = "Lean 4 invariant proof (induction over all operation lists of a small-step model) + differential correspondence with the real headers + thread stress"
     level_text = ("Lean 4 theorems over an executable small-step model of generator_aggregator (one step per queue lock region; completions of "
                   "asynchronous sources interleave at every step): per-source order / exactly once, union at the end, ends iff all sources ended, "
-                  "exception keeps the others and is rethrown last, argument routing, destructor drain waits for every in-flight source — for every "
-                  "number of sources, every script (finite or infinite) and every operation list; the model is tied to the headers by running both on "
+                  "exception keeps the others and is rethrown last, argument routing (incl. every later fetch of the argument through the reference "
+                  "the source holds: it finds the argument routed to it, never a destroyed object or another source's argument), destructor drain waits "
+                  "for every in-flight source in every destroying context and never aborts — for every "
+                  "number of sources, every script (finite or infinite) and every operation list; as-is variants of the two repaired steps (/repo 2ec61ae, "
+                  "2010fed) with witness theorems; the model is tied to the headers by running both on "
                   "generated cases (0-5 scripted sources, sync/iterator/future/coroutine access from plain code and from inside one long-running consumer "
-                  "coroutine (active coro_queue, blocking and co_await styles mixed), completions from the consumer thread or a second "
-                  "thread, early destruction with in-flight sources under ASan/LSan) and diffing every line; property oracles run on the implementation trace")
+                  "coroutine (active coro_queue, blocking and co_await styles mixed), arguments of type int and of a non-trivially-copyable type whose "
+                  "copies, moves and destruction are tracked, sources that fetch their argument again after an await, completions from the consumer "
+                  "thread or a second thread, early destruction with in-flight sources from plain code and from a running coroutine, under ASan/LSan) "
+                  "and diffing every line; property oracles run on the implementation trace")
     level_note = ("trusted: Lean kernel (axioms propext/Classical.choice/Quot.sound at most), the hand-written model, the differential harness "
                   "(sampling), queue.h / generator.h / future layer (C09/C13/C01). Thread interleavings are covered by the theorems (any interleaving of "
                   "aggregator steps and source completions is an op list) but exercised on the real code only in serialised form (second thread joined, or "
                   "blocking consumer + resolving thread where the outcome is schedule-independent) and by a thread stress suite (one resolver thread per "
                   "asynchronous source, schedule-independent facts checked by the oracle).")
     assumptions = ["the aggregate is destroyed only while it is not being accessed (parked at co_yield, before the first access, or after the end), "
-                   "as generator_aggregator.h states, and from a non-coroutine context when sources are in flight (the drain blocks the thread)",
-                   "sources read their argument immediately when resumed (the argument is carried by reference)",
+                   "as generator_aggregator.h states (from plain code or from a running coroutine; the drain blocks the thread either way)",
+                   "a source looks at its argument only between its resumption and its next co_yield (while it works on the step the "
+                   "argument belongs to), at resumption and/or after its asynchronous waits",
                    "when several sources throw, only the exception examined last is reported (the code keeps one exception_ptr); "
                    "with infinite sources next to a throwing one the exception is never reported because the aggregate never ends",
                    "a source's asynchronous operation completes at most once and only while the source is suspended on it"]
